@@ -3,6 +3,7 @@ import OmplModel.Proofs.SpaceBoundsValid
 import OmplModel.Proofs.SpaceBoundsSamplers
 import OmplModel.Proofs.SpaceBoundsSubspace
 import OmplModel.Proofs.SpaceBoundsShipped
+import OmplModel.Proofs.SpaceBoundsNearby
 /-!
 C08 — bound enforcement and every sampler keep states inside the space.
 Property theorems only (helper lemmas: `Proofs/SpaceBounds*.lean`).  `[EX]` = exact real arithmetic
@@ -656,40 +657,40 @@ clearance type `κ`, every oracle (sample stream, answer stream — not necessar
 every attempt limit; by parametricity in `σ` the witness query is the one made on the returned state object.
 `validSampler_valid` specialises them to an oracle that answers by a predicate. -/
 section
-variable {σ κ : Type}
+variable {σ δ κ : Type}
 
 /-- UniformValidStateSampler::sample / sampleNear -/
-theorem validSampler_sound_uniform (o : Orc σ κ) (c : Call) (attempts : Nat) (s : OS σ κ) :
+theorem validSampler_sound_uniform (o : Orc σ δ κ) (c : Call σ δ) (attempts : Nat) (s : OS σ δ κ) :
     (uniformV o c attempts s).ok = true →
     ∃ k, Validated s (uniformV o c attempts s).os (uniformV o c attempts s).st k :=
   uniformV_sound o c attempts s
 
 /-- GaussianValidStateSampler: returns `state` if `v1 ∧ ¬v2`, `temp` if `¬v1 ∧ v2` -/
-theorem validSampler_sound_gaussian (o : Orc σ κ) (c : Call) (attempts : Nat) (s : OS σ κ) :
-    (gaussV o c attempts s).ok = true →
-    ∃ k, Validated s (gaussV o c attempts s).os (gaussV o c attempts s).st k :=
-  gaussV_sound o c attempts s
+theorem validSampler_sound_gaussian (o : Orc σ δ κ) (c : Call σ δ) (sd : δ) (attempts : Nat) (s : OS σ δ κ) :
+    (gaussV o c sd attempts s).ok = true →
+    ∃ k, Validated s (gaussV o c sd attempts s).os (gaussV o c sd attempts s).st k :=
+  gaussV_sound o c sd attempts s
 
 /-- ObstacleBasedValidStateSampler as fixed by 96c4da7bb (`if (fail.second == 0.0) copyState(state, temp)` after
 DiscreteMotionValidator::checkMotion(temp, state, fail)), for every interpolation function — the hypothesis
 `interpolate(a, b, 0) = a` is gone.  What remains assumed: `validSegmentCount ≥ 1` (it is 0 only for two states at
 distance 0, where the code computes `lastValid.second = -1/0` and interpolates at `-inf`). -/
-theorem validSampler_sound_obstacleBased (o : Orc σ κ) (segs : σ → σ → Nat) (interp : σ → σ → Nat → Nat → σ)
-    (hseg : ∀ a b, 1 ≤ segs a b) (c : Call) (attempts : Nat) (s : OS σ κ) :
+theorem validSampler_sound_obstacleBased (o : Orc σ δ κ) (segs : σ → σ → Nat) (interp : σ → σ → Nat → Nat → σ)
+    (hseg : ∀ a b, 1 ≤ segs a b) (c : Call σ δ) (attempts : Nat) (s : OS σ δ κ) :
     (obstacleV o segs interp c attempts s).ok = true →
     ∃ k, Validated s (obstacleV o segs interp c attempts s).os (obstacleV o segs interp c attempts s).st k :=
   obstacleV_sound o segs interp hseg c attempts s
 
 /-- the code before the fix was sound only for interpolation functions with `interpolate(a, b, 0) = a` -/
-theorem obstacleBased_old_sound_partial (o : Orc σ κ) (segs : σ → σ → Nat) (interp : σ → σ → Nat → Nat → σ)
-    (h0 : ∀ a b n, interp a b 0 n = a) (c : Call) (attempts : Nat) (s : OS σ κ) :
+theorem obstacleBased_old_sound_partial (o : Orc σ δ κ) (segs : σ → σ → Nat) (interp : σ → σ → Nat → Nat → σ)
+    (h0 : ∀ a b n, interp a b 0 n = a) (c : Call σ δ) (attempts : Nat) (s : OS σ δ κ) :
     (obstacleVOld o segs interp c attempts s).ok = true →
     ∃ k, Validated s (obstacleVOld o segs interp c attempts s).os (obstacleVOld o segs interp c attempts s).st k :=
   obstacleVOld_sound o segs interp h0 c attempts s
 
 /-- witness oracle of finding F27: first sample (10) invalid, second (11) valid, three segments, the first interpolated
 state invalid; `interp` at index 0 gives 100, not its first argument (as SO(3) slerp at t = 0 is an ulp off) -/
-def f27Orc : Orc Nat Nat := ⟨fun k => 10 + k, fun k => (k == 1, 0)⟩
+def f27Orc : Orc Nat Nat Nat := ⟨fun k _ => 10 + k, fun k => (k == 1, 0)⟩
 def f27Interp : Nat → Nat → Nat → Nat → Nat := fun _ _ j _ => 100 + j
 
 /-- F27 (fixed by 96c4da7bb): the old code returned with success a state that was never validity-checked -/
@@ -703,40 +704,260 @@ example : (obstacleV f27Orc (fun _ _ => 3) f27Interp .uniform 4 {}).st = 11 ∧
     (11, true, 0) ∈ (obstacleV f27Orc (fun _ _ => 3) f27Interp .uniform 4 {}).os.log := by decide
 
 /-- BridgeTestValidStateSampler: the returned midpoint is the state that was tested last -/
-theorem validSampler_sound_bridgeTest (o : Orc σ κ) (mid : σ → σ → σ) (c : Call) (attempts : Nat) (s : OS σ κ) :
-    (bridgeV o mid c attempts s).ok = true →
-    ∃ k, Validated s (bridgeV o mid c attempts s).os (bridgeV o mid c attempts s).st k :=
-  (bridgeV_ext_sound o mid c attempts s).2
+theorem validSampler_sound_bridgeTest (o : Orc σ δ κ) (mid : σ → σ → σ) (c : Call σ δ) (sd : δ) (attempts : Nat)
+    (s : OS σ δ κ) : (bridgeV o mid c sd attempts s).ok = true →
+    ∃ k, Validated s (bridgeV o mid c sd attempts s).os (bridgeV o mid c sd attempts s).st k :=
+  (bridgeV_ext_sound o mid c sd attempts s).2
 
 /-- MaximizeClearanceValidStateSampler, any number of improvement attempts -/
-theorem validSampler_sound_maximizeClearance (o : Orc σ κ) (lt : κ → κ → Bool) (c : Call) (attempts improve : Nat)
-    (s : OS σ κ) : (maxClearV o lt c attempts improve s).ok = true →
+theorem validSampler_sound_maximizeClearance (o : Orc σ δ κ) (lt : κ → κ → Bool) (c : Call σ δ) (attempts improve : Nat)
+    (s : OS σ δ κ) : (maxClearV o lt c attempts improve s).ok = true →
     ∃ k, Validated s (maxClearV o lt c attempts improve s).os (maxClearV o lt c attempts improve s).st k :=
   maxClearV_sound o lt c attempts improve s
 
 /-- MinimumClearanceValidStateSampler: valid, and the recorded clearance is not below the bound -/
-theorem validSampler_sound_minimumClearance (o : Orc σ κ) (lt : κ → κ → Bool) (clearance : κ) (c : Call)
-    (attempts : Nat) (s : OS σ κ) : (minClearV o lt clearance c attempts s).ok = true →
+theorem validSampler_sound_minimumClearance (o : Orc σ δ κ) (lt : κ → κ → Bool) (clearance : κ) (c : Call σ δ)
+    (attempts : Nat) (s : OS σ δ κ) : (minClearV o lt clearance c attempts s).ok = true →
     ∃ k, Validated s (minClearV o lt clearance c attempts s).os (minClearV o lt clearance c attempts s).st k ∧
       lt k clearance = false :=
   minClearV_sound o lt clearance c attempts s
 
 /-- if the checker answers by a predicate (every recorded answer equals `valid` of the queried state), a validated
 state is valid: "every state a valid-state sampler returns with success is valid", for every validity predicate -/
-theorem validSampler_valid (valid : σ → Bool) (s s' : OS σ κ) (x : σ) (k : κ)
+theorem validSampler_valid (valid : σ → Bool) (s s' : OS σ δ κ) (x : σ) (k : κ)
     (hcons : ∀ e ∈ s'.log, e.2.1 = valid e.1) (h : Validated s s' x k) : valid x = true := by
   obtain ⟨new, e, m⟩ := h
   have := hcons (x, true, k) (by rw [e]; exact List.mem_append_left _ m)
   exact this.symm
 
 -- non-vacuity: an oracle whose second sample is valid; Uniform with 3 attempts succeeds with that sample
-example : (uniformV (σ := Nat) (κ := Nat) ⟨fun k => 10 + k, fun k => (k == 1, 0)⟩ .uniform 2 {}).ok = true ∧
-    (uniformV (σ := Nat) (κ := Nat) ⟨fun k => 10 + k, fun k => (k == 1, 0)⟩ .uniform 2 {}).st = 11 := by decide
+example : (uniformV (σ := Nat) (δ := Nat) (κ := Nat) ⟨fun k _ => 10 + k, fun k => (k == 1, 0)⟩ .uniform 2 {}).ok = true ∧
+    (uniformV (σ := Nat) (δ := Nat) (κ := Nat) ⟨fun k _ => 10 + k, fun k => (k == 1, 0)⟩ .uniform 2 {}).st = 11 := by decide
 -- Gaussian returns `temp` when only the second answer is `true`
-example : (gaussV (σ := Nat) (κ := Nat) ⟨fun k => 10 + k, fun k => (k == 1, 0)⟩ .uniform 0 {}).st = 11 := by decide
+example : (gaussV (σ := Nat) (δ := Nat) (κ := Nat) ⟨fun k _ => 10 + k, fun k => (k == 1, 0)⟩ .uniform 7 0 {}).st = 11 := by decide
 -- ObstacleBased: invalid 10, valid 11, motion 11 -> 10 with 3 segments fails at the second test state: returns the first
-example : (obstacleV (σ := Nat) (κ := Nat) ⟨fun k => 10 + k, fun k => (k == 1 || k == 2, 0)⟩ (fun _ _ => 3)
+example : (obstacleV (σ := Nat) (δ := Nat) (κ := Nat) ⟨fun k _ => 10 + k, fun k => (k == 1 || k == 2, 0)⟩ (fun _ _ => 3)
     (fun a _ j _ => if j = 0 then a else 100 + j) .uniform 4 {}).st = 101 := by decide
 end
+
+
+/-! ### round 10: the IN-BOUNDS clause of the valid-state samplers `[AF]`
+
+"every state that a valid-state sampler returns with success is both in bounds and valid": `validSampler_sound_*` are the
+"valid" half; these are the "in bounds" half.  `P` = satisfies the bounds, `D` = acceptable near-distance.  Hypothesis
+`SamplerOk P D o`: the inner `StateSampler` keeps its contract — handed an in-bounds near / mean state and an acceptable
+distance it writes an in-bounds state (that is `sampler_inbounds_uniform/_near/_gaussian`, see
+`defaultSampler_keeps_contract`); `CallOk P D c`: the caller's own `near` is in bounds and its distance acceptable.
+Conclusion, for every attempt limit and every stream of validity answers, success or not: the state left in `state`
+satisfies `P`, AND (`CallsExt`) every call the valid-state sampler made to the inner sampler had acceptable arguments —
+e.g. the mean of the Gaussian step is the state sampled just before, never `temp` or a stale state.  The model records the
+arguments (`Call.near c d`, `Call.gauss m sd`) and the `vsa` lock-step compares them with what the real samplers pass. -/
+section
+variable {σ δ κ : Type} {P : σ → Prop} {D : δ → Prop}
+
+/-- UniformValidStateSampler::sample / sampleNear -/
+theorem validSampler_inbounds_uniform (o : Orc σ δ κ) (ho : SamplerOk P D o) (c : Call σ δ) (hc : CallOk P D c)
+    (attempts : Nat) (s : OS σ δ κ) :
+    P (uniformV o c attempts s).st ∧ CallsExt P D s (uniformV o c attempts s).os := uniformV_inb ho hc attempts s
+
+/-- GaussianValidStateSampler (`state` or `temp`; the Gaussian draw's mean is the in-bounds `state`), every sigma -/
+theorem validSampler_inbounds_gaussian (o : Orc σ δ κ) (ho : SamplerOk P D o) (c : Call σ δ) (hc : CallOk P D c) (sd : δ)
+    (attempts : Nat) (s : OS σ δ κ) :
+    P (gaussV o c sd attempts s).st ∧ CallsExt P D s (gaussV o c sd attempts s).os := gaussV_inb ho hc sd attempts s
+
+/-- MinimumClearanceValidStateSampler -/
+theorem validSampler_inbounds_minimumClearance (o : Orc σ δ κ) (ho : SamplerOk P D o) (lt : κ → κ → Bool) (cl : κ)
+    (c : Call σ δ) (hc : CallOk P D c) (attempts : Nat) (s : OS σ δ κ) :
+    P (minClearV o lt cl c attempts s).st ∧ CallsExt P D s (minClearV o lt cl c attempts s).os :=
+  minClearV_inb ho lt cl hc attempts s
+
+/-- MaximizeClearanceValidStateSampler, any number of improvement attempts -/
+theorem validSampler_inbounds_maximizeClearance (o : Orc σ δ κ) (ho : SamplerOk P D o) (lt : κ → κ → Bool)
+    (c : Call σ δ) (hc : CallOk P D c) (attempts improve : Nat) (s : OS σ δ κ) :
+    P (maxClearV o lt c attempts improve s).st ∧ CallsExt P D s (maxClearV o lt c attempts improve s).os :=
+  maxClearV_inb ho lt hc attempts improve s
+
+/-- BridgeTestValidStateSampler: the returned state is `interpolate(endpoint, state, 0.5)`; in bounds for every space
+whose `interpolate` maps two in-bounds states to an in-bounds state (`hmid`; R^n: `rv_interpolate_keeps_bounds`) -/
+theorem validSampler_inbounds_bridgeTest (o : Orc σ δ κ) (ho : SamplerOk P D o) (mid : σ → σ → σ)
+    (hmid : ∀ e x, P e → P x → P (mid e x)) (c : Call σ δ) (hc : CallOk P D c) (sd : δ) (attempts : Nat) (s : OS σ δ κ) :
+    P (bridgeV o mid c sd attempts s).st ∧ CallsExt P D s (bridgeV o mid c sd attempts s).os :=
+  bridgeV_inb ho mid hmid hc sd attempts s
+
+/-- ObstacleBasedValidStateSampler (fixed code): `temp`, or `interpolate(temp, state, (j-1)/nd)` with `j - 1 ≤ nd` — the
+index never leaves `[0, nd]` (proved: loop invariant `j + k ≤ nd`), so `hint` is only needed for `t ∈ [0, 1]` -/
+theorem validSampler_inbounds_obstacleBased (o : Orc σ δ κ) (ho : SamplerOk P D o) (segs : σ → σ → Nat)
+    (interp : σ → σ → Nat → Nat → σ) (hint : ∀ a b j n, j ≤ n → P a → P b → P (interp a b j n))
+    (c : Call σ δ) (hc : CallOk P D c) (attempts : Nat) (s : OS σ δ κ) :
+    P (obstacleV o segs interp c attempts s).st ∧ CallsExt P D s (obstacleV o segs interp c attempts s).os :=
+  obstacleV_inb ho segs interp hint hc attempts s
+
+-- non-vacuity: "in bounds" = `10 ≤ x`, an inner sampler that adds to its near / mean state; Gaussian with 2 attempts
+-- returns `temp` = 10 + 10 + 1 (second answer true), in bounds, having handed the in-bounds 10 as mean
+example : (gaussV (σ := Nat) (δ := Nat) (κ := Nat)
+      ⟨fun k c => match c with | .uniform => 10 + k | .near x _ => x + k | .gauss m _ => m + 10 + k, fun k => (k == 1, 0)⟩
+      .uniform 3 1 {}).st = 21 := by decide
+example : SamplerOk (fun x : Nat => 10 ≤ x) (fun _ : Nat => True)
+    (⟨fun k c => match c with | .uniform => 10 + k | .near x _ => x + k | .gauss m _ => m + 10 + k,
+      fun k => (k == 1, 0)⟩ : Orc Nat Nat Nat) := by
+  intro k c hc
+  cases c with
+  | uniform => simp
+  | near x d => exact Nat.le_trans hc.1 (Nat.le_add_right _ _)
+  | gauss m sd => have : 10 ≤ m := hc; simp only; omega
+
+/-! #### SpaceInformation::searchValidNearby `[AF]` (both overloads; `sat` / `enforce` = the space's `satisfiesBounds` /
+`enforceBounds`, `vss` = `sampleNear` of any valid-state sampler) -/
+
+/-- success ⇒ a validity query of this call about the returned state was answered `true` (the enforced `near` itself, or
+what the sampler returned), for every sampler that is itself sound -/
+theorem searchValidNearby_sound (o : Orc σ δ κ) (sat : σ → Bool) (enforce : σ → σ)
+    (vss : σ → δ → OS σ δ κ → VRes σ δ κ)
+    (hv : ∀ c d s, (vss c d s).ok = true → ∃ k, Validated s (vss c d s).os (vss c d s).st k)
+    (near : σ) (d : δ) (s : OS σ δ κ) :
+    (searchNearbyV o sat enforce vss near d s).ok = true →
+    ∃ k, Validated s (searchNearbyV o sat enforce vss near d s).os (searchNearbyV o sat enforce vss near d s).st k :=
+  searchNearbyV_sound o sat enforce vss hv near d s
+
+/-- for EVERY `near` (in bounds or not): if enforcing yields an in-bounds state (`enforce_inbounds`) and the sampler keeps
+in-bounds centres in bounds, the state left in `state` satisfies the bounds and the sampler was handed an in-bounds near
+state — the precondition of `sampler_inbounds_near` is ESTABLISHED by the glue, not assumed -/
+theorem searchValidNearby_inbounds (o : Orc σ δ κ) (sat : σ → Bool) (enforce : σ → σ)
+    (hE : ∀ x, sat (enforce x) = true) (vss : σ → δ → OS σ δ κ → VRes σ δ κ)
+    (hv : ∀ c d s, sat c = true → D d →
+      sat (vss c d s).st = true ∧ CallsExt (fun x => sat x = true) D s (vss c d s).os)
+    (near : σ) (d : δ) (hd : D d) (s : OS σ δ κ) :
+    sat (searchNearbyV o sat enforce vss near d s).st = true ∧
+    CallsExt (fun x => sat x = true) D s (searchNearbyV o sat enforce vss near d s).os :=
+  searchNearbyV_inb o sat enforce hE vss hv near d hd s
+
+/-- the `(state, near, distance, attempts)` overload (short-circuit test, then a fresh UniformValidStateSampler) -/
+theorem searchValidNearby_attempts_sound (o : Orc σ δ κ) (sat : σ → Bool) (enforce : σ → σ) (near : σ) (d : δ)
+    (attempts : Nat) (s : OS σ δ κ) :
+    (searchNearbyAttempts o sat enforce near d attempts s).ok = true →
+    ∃ k, Validated s (searchNearbyAttempts o sat enforce near d attempts s).os
+      (searchNearbyAttempts o sat enforce near d attempts s).st k :=
+  searchNearbyAttempts_sound o sat enforce near d attempts s
+
+theorem searchValidNearby_attempts_inbounds (o : Orc σ δ κ) (sat : σ → Bool) (enforce : σ → σ)
+    (hE : ∀ x, sat (enforce x) = true) (ho : SamplerOk (fun x => sat x = true) D o)
+    (near : σ) (d : δ) (hd : D d) (attempts : Nat) (s : OS σ δ κ) :
+    sat (searchNearbyAttempts o sat enforce near d attempts s).st = true ∧
+    CallsExt (fun x => sat x = true) D s (searchNearbyAttempts o sat enforce near d attempts s).os :=
+  searchNearbyAttempts_inb o sat enforce hE ho near d hd attempts s
+
+-- non-vacuity: bounds `10 ≤ x ≤ 20`, enforce = clamp; near = 99 is clamped to 20, answered invalid (k = 0), the
+-- sampler's first near-sample (20 - 1) is answered valid
+example : (searchNearbyAttempts (σ := Nat) (δ := Nat) (κ := Nat)
+      ⟨fun _ c => match c with | .near x _ => x - 1 | _ => 15, fun k => (k == 1, 0)⟩
+      (fun x => decide (10 ≤ x) && decide (x ≤ 20)) (fun x => if x < 10 then 10 else if 20 < x then 20 else x)
+      99 3 4 {}).st = 19 := by decide
+end
+
+/-! #### the same over the modelled samplers of every space `[EX]` -/
+
+/-- [EX] The modelled default sampler of every space with legal bounds keeps the contract the `[AF]` theorems assume:
+with an in-bounds near / mean state and a non-negative near-distance (any sigma) its output satisfies the bounds, at
+every position of the RNG streams. -/
+theorem defaultSampler_keeps_contract {κ : Type} (R : Rng ℝ) (hR : drawsOk R) (sp : Space ℝ) (h : boundsOk sp)
+    (pos : Nat → Pos) (ans : Nat → Bool × κ) :
+    SamplerOk (fun x => satisfiesBounds sp x = true) (fun d : ℝ => 0 ≤ d) (defaultSamplerOrc R sp pos ans) := by
+  intro k c hc
+  cases c with
+  | uniform => exact sampler_inbounds_uniform R hR sp _ h
+  | near c d => exact sampler_inbounds_near R hR sp none c d _ h hc.2 hc.1
+  | gauss m sd => exact sampler_inbounds_gaussian R hR sp none m sd _ h hc
+
+/-- [EX] `searchValidNearby(state, near, distance, attempts)` over the default sampler of ANY space (nested compounds,
+wrappers, SO(3), specials) with legal bounds, for EVERY `near` — far out of bounds, denormalised quaternion, many periods
+away —, every `0 ≤ distance`, attempt limit, draw and validity answer: the state it leaves satisfies the bounds (clauses 1
+and 2 of the property composed by the library's own glue: `enforce_inbounds` feeds `sampler_inbounds_near`), and on
+success a query of this call about that state was answered `true`. -/
+theorem searchValidNearby_inbounds_real {κ : Type} (R : Rng ℝ) (hR : drawsOk R) (sp : Space ℝ) (h : boundsOk sp)
+    (pos : Nat → Pos) (ans : Nat → Bool × κ) (near : OmplModel.St ℝ) (d : ℝ) (hd : 0 ≤ d) (attempts : Nat)
+    (s : OS (OmplModel.St ℝ) ℝ κ) :
+    let r := searchNearbyAttempts (defaultSamplerOrc R sp pos ans) (satisfiesBounds sp) (enforceBounds sp) near d attempts s
+    satisfiesBounds sp r.st = true ∧ (r.ok = true → ∃ k, Validated s r.os r.st k) :=
+  ⟨(searchNearbyAttempts_inb (D := fun d : ℝ => 0 ≤ d) _ _ _ (fun x => enforce_inbounds sp x h)
+      (defaultSampler_keeps_contract R hR sp h pos ans) near d hd attempts s).1,
+   searchNearbyAttempts_sound _ _ _ near d attempts s⟩
+
+-- non-vacuity: the compound of `exSpace`, a `near` state far outside (zero quaternion included)
+example (R : Rng ℝ) (hR : drawsOk R) (pos : Nat → Pos) (ans : Nat → Bool × ℝ) :
+    satisfiesBounds exSpace (searchNearbyAttempts (defaultSamplerOrc R exSpace pos ans) (satisfiesBounds exSpace)
+      (enforceBounds exSpace) (.ccons (.rv [7, 7]) (.ccons (.so2 1000) (.ccons (.so3 0 0 0 0) .cnil))) 3 5 {}).st = true :=
+  (searchValidNearby_inbounds_real R hR exSpace exSpace_ok pos ans _ 3 (by norm_num) 5 {}).1
+
+/-- [EX] The six valid-state samplers over the modelled default sampler of any space with legal bounds, `sample` and
+`sampleNear` (in-bounds `near`, `0 ≤ distance`), every sigma / attempt limit / clearance bound / answer stream: the state
+left in `state` satisfies the bounds.  Gaussian, Uniform, MinimumClearance, MaximizeClearance outright; BridgeTest and
+ObstacleBased for every `interpolate` that keeps two in-bounds states in bounds for `t ∈ [0,1]`. -/
+theorem validSampler_inbounds_real {κ : Type} (R : Rng ℝ) (hR : drawsOk R) (sp : Space ℝ) (h : boundsOk sp)
+    (pos : Nat → Pos) (ans : Nat → Bool × κ) (c : Call (OmplModel.St ℝ) ℝ)
+    (hc : CallOk (fun x => satisfiesBounds sp x = true) (fun d : ℝ => 0 ≤ d) c) (sd : ℝ) (attempts improve : Nat)
+    (lt : κ → κ → Bool) (cl : κ) (s : OS (OmplModel.St ℝ) ℝ κ) :
+    let o := defaultSamplerOrc R sp pos ans
+    satisfiesBounds sp (uniformV o c attempts s).st = true ∧
+    satisfiesBounds sp (gaussV o c sd attempts s).st = true ∧
+    satisfiesBounds sp (minClearV o lt cl c attempts s).st = true ∧
+    satisfiesBounds sp (maxClearV o lt c attempts improve s).st = true ∧
+    (∀ mid : OmplModel.St ℝ → OmplModel.St ℝ → OmplModel.St ℝ,
+      (∀ e x, satisfiesBounds sp e = true → satisfiesBounds sp x = true → satisfiesBounds sp (mid e x) = true) →
+      satisfiesBounds sp (bridgeV o mid c sd attempts s).st = true) ∧
+    (∀ (segs : OmplModel.St ℝ → OmplModel.St ℝ → Nat) (interp : OmplModel.St ℝ → OmplModel.St ℝ → Nat → Nat → OmplModel.St ℝ),
+      (∀ a b j n, j ≤ n → satisfiesBounds sp a = true → satisfiesBounds sp b = true →
+        satisfiesBounds sp (interp a b j n) = true) →
+      satisfiesBounds sp (obstacleV o segs interp c attempts s).st = true) := by
+  have ho := defaultSampler_keeps_contract R hR sp h pos ans
+  exact ⟨(uniformV_inb ho hc attempts s).1, (gaussV_inb ho hc sd attempts s).1, (minClearV_inb ho lt cl hc attempts s).1,
+    (maxClearV_inb ho lt hc attempts improve s).1,
+    fun mid hmid => (bridgeV_inb ho mid hmid hc sd attempts s).1,
+    fun segs interp hint => (obstacleV_inb ho segs interp hint hc attempts s).1⟩
+
+/-- [EX] `RealVectorStateSpace::interpolate` (`from + (to - from) * t`) keeps the `eps`-slack box of `satisfiesBounds`:
+the BridgeTest midpoint (`t = 1/2`) and every `lastValid` state of `checkMotion` (`t = j/nd`, `j ≤ nd`) — the closure
+hypotheses of `validSampler_inbounds_bridgeTest` / `_obstacleBased` hold on R^n.
+FULL statement (not proved here): the same for `interpolate` of every space; that is C07's model (`interp_inbounds_all`
+in C07's own in-bounds predicate, without the `eps` slack) — the two predicates are not unified, so beyond R^n the
+midpoint's bounds are covered by the `vreal` oracle (`badBounds = 0`) only. -/
+theorem rv_interpolate_keeps_bounds_partial (lo hi : List ℝ) :
+    (∀ e x, rvSat lo hi e = true → rvSat lo hi x = true → rvSat lo hi (rvInterp (1 / 2) e x) = true) ∧
+    (∀ a b (j n : Nat), j ≤ n → rvSat lo hi a = true → rvSat lo hi b = true →
+      rvSat lo hi (rvInterp ((j : ℝ) / (n : ℝ)) a b) = true) := by
+  refine ⟨fun e x he hx => rvInterp_sat (by norm_num) (by norm_num) lo hi e x he hx, fun a b j n hj ha hb => ?_⟩
+  have h0 : (0 : ℝ) ≤ (j : ℝ) / (n : ℝ) := div_nonneg (Nat.cast_nonneg j) (Nat.cast_nonneg n)
+  have h1 : (j : ℝ) / (n : ℝ) ≤ 1 := by
+    rcases Nat.eq_zero_or_pos n with hn | hn
+    · subst hn; simp
+    · rw [div_le_one (by exact_mod_cast hn)]; exact_mod_cast hj
+  exact rvInterp_sat h0 h1 lo hi a b ha hb
+
+-- non-vacuity: BridgeTest on the box [0,1]² with the R^n midpoint: in bounds for every in-bounds-keeping inner sampler
+example (o : Orc (List ℝ) ℝ ℝ) (ho : SamplerOk (fun x => rvSat [0, 0] [1, 1] x = true) (fun d : ℝ => 0 ≤ d) o)
+    (attempts : Nat) : rvSat [0, 0] [1, 1] (bridgeV o (rvInterp (1 / 2)) .uniform 3 attempts {}).st = true :=
+  (validSampler_inbounds_bridgeTest o ho _ (rv_interpolate_keeps_bounds_partial [0, 0] [1, 1]).1 .uniform trivial 3
+    attempts {}).1
+
+/-- [EX] round 10 (weakness fixed): `precomputed_near_inbounds` / `_gaussian_inbounds` assume the EXACT box (`rvIn`) for
+`near` and the stored state, but states that merely satisfy `satisfiesBounds` (its `eps` slack: `hi + eps` is "in bounds")
+are what the library hands over.  The same conclusions from `rvSat` itself (the slack box is convex too): -/
+theorem precomputed_inbounds_slack (lo hi near s : List ℝ) (hn : rvSat lo hi near = true) (hs : rvSat lo hi s = true) :
+    (∀ d : ℝ, 0 ≤ d → rvSat lo hi (preNearRv near s d) = true) ∧
+    (∀ sd g : ℝ, rvSat lo hi (preGaussRv near s sd g) = true) := by
+  have key : ∀ d : ℝ, 0 ≤ d → rvSat lo hi (preNearRv near s d) = true := by
+    intro d hd
+    unfold preNearRv
+    simp only []
+    split_ifs with h
+    · have hpos : (0 : ℝ) < Num.sqrt (rvDistSq near s (Num.ofNat 0)) := lt_of_le_of_lt hd h
+      exact rvInterp_sat (div_nonneg hd hpos.le) ((div_le_one hpos).2 h.le) lo hi near s hn hs
+    · exact hs
+  exact ⟨key, fun sd g => key _ (abs_nonneg _)⟩
+
+-- non-vacuity: near = hi + eps/2 (outside the exact box, inside the slack box)
+example : rvSat [0] [1] (preNearRv [1 + eps / 2] [(0 : ℝ)] (1 / 4)) = true :=
+  (precomputed_inbounds_slack [0] [1] [1 + eps / 2] [0]
+    (by simp only [rvSat, Bool.and_true, rvSat1_iff]; constructor <;> linarith [eps_pos])
+    (by simp only [rvSat, Bool.and_true, rvSat1_iff]; constructor <;> linarith [eps_pos])).1 _ (by norm_num)
 
 end OmplModel.SpaceBounds.C08
